@@ -51,6 +51,7 @@ func (u *c10bUp) Exec(ctx context.Context, qCtx *query_context.Context) error {
 		&dns.A{Hdr: dns.RR_Header{Name: n, Rrtype: dns.TypeA, Class: dns.ClassINET, Ttl: 10}, A: net.IPv4(10, 0, 0, byte(u.gen))},
 		&dns.TXT{Hdr: dns.RR_Header{Name: n, Rrtype: dns.TypeTXT, Class: dns.ClassINET, Ttl: 10}, Txt: []string{fmt.Sprintf("gen=%d", u.gen)}})
 	r.Ns = append(r.Ns, &dns.NS{Hdr: dns.RR_Header{Name: n, Rrtype: dns.TypeNS, Class: dns.ClassINET, Ttl: 10}, Ns: "ns.example."})
+	r.SetEdns0(1232, true) // upstream replies carry an OPT: Extra is [OPT], emptied in place when the response is set
 	u.made = append(u.made, r)
 	qCtx.SetResponse(r)
 	return nil
@@ -127,6 +128,16 @@ func c10bScenario(name, start string, nburst, d int) vr.Scenario {
 			roots = append(roots, &c10Root{Kind: "stored", Name: "item stored under key " + hex.EncodeToString([]byte(k)), Objs: []any{v}})
 			return nil
 		})
+		for i, m := range up.made {
+			// what the upstream handed to the cache (and, on a miss, what that client goes on using)
+			dup := false
+			for _, g := range got {
+				dup = dup || g.r == m
+			}
+			if !dup {
+				roots = append(roots, &c10Root{Kind: "upstream", Name: fmt.Sprintf("upstream answer #%d", i+1), Objs: []any{m}})
+			}
+		}
 		for i, g := range got {
 			if g.r != nil {
 				roots = append(roots, &c10Root{Kind: "hit", Name: fmt.Sprintf("reply handed to client %d", i), Objs: []any{g.r}})
